@@ -10,12 +10,15 @@
   * Database (1–3 connections so callers wait, per-query-type latency, transactions commit / rollback);
   * CacheWarmer (scheduled before the run; optionally re-started from a handler later in the run).
 TTLEviction gets its DEFAULT clock (wall-clock time.time) when cfg["ttl_default_clock"] is true, otherwise a
-clock_func reading the simulation clock."""
+clock_func reading the simulation clock.
+  * cache bank (cfg["bank"]): one more CachedStore per eviction policy — ALL of them in one run — over a shared KVStore
+    with a key space that can exceed the policies' internal constants (TwoQueueEviction remembers 50 ghosts), driven by
+    a scanner that sweeps the key space cyclically (hundreds of evictions) and re-reads recently evicted keys."""
 from __future__ import annotations
 
 import random
 
-from hv.scenarios.base import T, seed_all, stats_of, sub_seed
+from hv.scenarios.base import T, dur_ms, seed_all, size_over, stats_of, sub_seed
 
 NAME = "datastore"
 MODEL = "C16"
@@ -43,8 +46,8 @@ def gen_cfg(rng):
     ev = rng.choice(EVICTIONS)
     n_shards = rng.randint(2, 4)
     return {
-        "end": rng.choice([2.0, 3.0, 4.0]),
-        "n_keys": rng.choice([5, 8, 13, 23]),
+        "end": rng.choice([2.0, 3.0, 4.0]) if rng.random() < 0.9 else 8.0,
+        "n_keys": size_over(rng, [5, 8, 13, 23], 50),
         "n_clients": n_clients,
         "clients": [{"rate": rng.choice([20, 40, 60, 100]), "poisson": rng.random() < 0.5}
                     for _ in range(n_clients)],
@@ -56,26 +59,36 @@ def gen_cfg(rng):
               rng.randint(1, 4), rng.randint(1, 3), rng.randint(0, 2),
               rng.randint(1, 4), rng.randint(1, 4)],
         # backing store + cache
-        "db_read_ms": rng.randint(1, 8),
-        "db_write_ms": rng.randint(2, 12),
+        "db_read_ms": dur_ms(rng, 1, 8),
+        "db_write_ms": dur_ms(rng, 2, 12),
         "db_cap": rng.choice([None, None, 4, 10]),
         "eviction": ev,
         # about half of the TTL configurations use the constructor default (time.time)
         "ttl_default_clock": ev == "ttl" and rng.random() < 0.5,
-        "ttl_ms": rng.choice([50, 100, 200, 500]),
-        "cache_cap": rng.randint(2, 3),
-        "cache_read_ms": rng.randint(0, 2),
+        "ttl_ms": dur_ms(rng, 20, 1200),
+        "cache_cap": rng.choice([1, 2, 2, 3, 3, 8]),
+        "cache_read_ms": dur_ms(rng, 0.1, 2, zero=True),
         "write_through": rng.random() < 0.5,
         "write_policy": rng.choice(WRITE_POLICIES),
-        "wb_max_dirty": rng.randint(2, 4),
-        "slru_ratio_pct": rng.choice([50, 80]),
-        "sample_size": rng.randint(1, 3),
-        "kin_ratio_pct": rng.choice([25, 50]),
-        "inv_all_ms": rng.choice([None, 900, 1400]),
+        "wb_max_dirty": rng.randint(1, 4),
+        "wb_interval_ms": dur_ms(rng, 20, 1200),
+        "slru_ratio_pct": rng.choice([1, 50, 80, 99]),
+        "sample_size": rng.randint(1, 6),
+        "kin_ratio_pct": rng.choice([1, 25, 50, 99]),
+        "inv_all_ms": rng.choice([None, dur_ms(rng, 500, 1500), dur_ms(rng, 1001, 1900)]),
+        # cache bank: every eviction policy at once, key space around / above internal constants (2Q: 50 ghosts)
+        "bank": (list(EVICTIONS) if rng.random() < 0.75 else sorted(rng.sample(EVICTIONS, 3))) if rng.random() < 0.8 else [],
+        "bank_cap": rng.choice([1, 2, 4, 7]),
+        # around and above the ghost-list length: a cyclic sweep over K keys re-reads a key K - capacity evictions later
+        "bank_keys": rng.choice([12, 30, 45]) if rng.random() < 0.35 else rng.choice([51, 60, 90, 103, 150, 200]),
+        "scan_rate": rng.choice([20, 40, 60]),
+        "scan_span": rng.randint(2, 5),
+        "scan_back": rng.choice([3, 20, 60, 100]),
+        "scan_put_pct": rng.choice([0, 10, 40]),
         "sweep_rate": rng.choice([5, 10, 20]),      # TTL policy only: periodic purge of expired entries
         # soft ttl cache
-        "soft_ms": rng.choice([10, 40, 100]),
-        "hard_extra_ms": rng.choice([0, 50, 300]),
+        "soft_ms": dur_ms(rng, 5, 300),
+        "hard_extra_ms": dur_ms(rng, 1, 1200, zero=True),
         "sttl_cap": rng.choice([None, 2, 4]),
         # multi tier
         "promotion": rng.choice(PROMOTIONS),
@@ -90,20 +103,34 @@ def gen_cfg(rng):
         # replicated
         "rc": rng.choice(LEVELS),
         "wc": rng.choice(LEVELS),
-        "replica_ms": [rng.randint(1, 10) for _ in range(3)],
+        "replica_ms": [dur_ms(rng, 1, 10) for _ in range(3)],
+        "r_timeout_ms": rng.choice([None, None, dur_ms(rng, 1, 20)]),     # None: the family's 50 / 100 ms
+        "w_timeout_ms": rng.choice([None, None, dur_ms(rng, 1, 30)]),
         # database
         "max_conn": rng.randint(1, 3),
         "q_callable": rng.random() < 0.5,
-        "q_ms": rng.randint(2, 15),
-        "conn_ms": rng.randint(1, 10),
-        "commit_ms": rng.randint(1, 10),
+        "q_ms": dur_ms(rng, 1, 15),
+        "conn_ms": dur_ms(rng, 1, 10),
+        "commit_ms": dur_ms(rng, 1, 10),
         "rollback_pct": rng.choice([0, 20, 50]),
         "tx_stmts": rng.randint(1, 3),
         # warmer
-        "warm_rate": rng.choice([50, 100, 200]),
+        "warm_rate": rng.choice([3, 50, 100, 200, 997]),
         "warm_n": rng.randint(3, 8),
-        "rewarm_ms": rng.choice([1000, 1500]) if rng.random() < 0.25 else None,
+        "warm_ms": dur_ms(rng, 0.1, 5),
+        "warm_callable": rng.random() < 0.3,
+        "rewarm_ms": dur_ms(rng, 1000, 1600) if rng.random() < 0.25 else None,
     }
+
+
+def gen_cfg_wide(rng):
+    """maximum-coverage configuration: every eviction policy in the bank, a key space well above the policies' internal
+    constants, enough sweeps to evict every key several times"""
+    cfg = gen_cfg(rng)
+    cfg.update({"bank": list(EVICTIONS), "bank_keys": rng.choice([90, 103, 150, 200]), "bank_cap": rng.choice([2, 4, 7]),
+                "scan_rate": rng.choice([40, 60]), "scan_span": rng.randint(3, 5), "scan_back": rng.choice([60, 100]),
+                "end": max(cfg["end"], 3.0), "n_keys": rng.choice([23, 60, 103])})
+    return cfg
 
 
 def _eviction(kind, cfg, seed, tag, sim_seconds):
@@ -195,7 +222,7 @@ def build(cfg, seed):
     if wp_kind == "through":
         wpol = WriteThrough()
     elif wp_kind == "back":
-        wpol = WriteBack(flush_interval=0.2, max_dirty=cfg["wb_max_dirty"])
+        wpol = WriteBack(flush_interval=cfg.get("wb_interval_ms", 200) / 1000.0, max_dirty=cfg["wb_max_dirty"])
     else:
         wpol = WriteAround()
     pending = {}          # WriteBack: values buffered by the harness until the policy asks for a flush
@@ -238,7 +265,9 @@ def build(cfg, seed):
     replicas = [KVStore(f"replica-{i}", read_latency=ms / 1000.0, write_latency=2 * ms / 1000.0)
                 for i, ms in enumerate(cfg["replica_ms"])]
     repl = ReplicatedStore("repl", replicas=replicas, read_consistency=ConsistencyLevel[cfg["rc"]],
-                           write_consistency=ConsistencyLevel[cfg["wc"]], read_timeout=0.05, write_timeout=0.1)
+                           write_consistency=ConsistencyLevel[cfg["wc"]],
+                           read_timeout=(cfg.get("r_timeout_ms") or 50) / 1000.0,
+                           write_timeout=(cfg.get("w_timeout_ms") or 100) / 1000.0)
 
     # ---- Database -------------------------------------------------------------------------------------
     q_ms = cfg["q_ms"]
@@ -254,8 +283,10 @@ def build(cfg, seed):
     pg.create_table("orders")
 
     # ---- CacheWarmer ----------------------------------------------------------------------------------
-    warmer = CacheWarmer("warmer", cache=cache, keys_to_warm=[key(i) for i in range(cfg["warm_n"])],
-                         warmup_rate=float(cfg["warm_rate"]), warmup_latency=0.001)
+    warm_keys = [key(i) for i in range(cfg["warm_n"])]
+    warmer = CacheWarmer("warmer", cache=cache,
+                         keys_to_warm=(lambda: list(warm_keys)) if cfg.get("warm_callable") else warm_keys,
+                         warmup_rate=float(cfg["warm_rate"]), warmup_latency=cfg.get("warm_ms", 1) / 1000.0)
 
     shared = {"wb_flushes": 0, "wa_invalidations": 0, "expired_swept": 0, "inv_all": 0, "rewarm": 0, "sweeps": []}
 
@@ -402,16 +433,74 @@ def build(cfg, seed):
                 return [warmer.start_warming()]
             return []
 
+    # ---- cache bank: every eviction policy over one backing store, swept by a scanner ------------------
+    bank = []
+    bank_kinds = cfg.get("bank") or []
+    dbb = KVStore("bank-db", read_latency=cfg["db_read_ms"] / 1000.0, write_latency=cfg["db_write_ms"] / 1000.0)
+    nbk = cfg.get("bank_keys", 12)
+
+    def bkey(i):
+        return f"user:{i % nbk:03d}"
+
+    if bank_kinds:
+        for i in range(nbk):
+            dbb.put_sync(bkey(i), i)
+        for kind in bank_kinds:
+            bank.append(CachedStore(f"bank-{kind}", backing_store=dbb, cache_capacity=cfg.get("bank_cap", 2),
+                                    eviction_policy=_eviction(kind, dict(cfg, ttl_default_clock=False), seed,
+                                                              f"bank-{kind}", sim_seconds),
+                                    cache_read_latency=0.0005))
+
+    class Scanner(Entity):
+        """cyclic sweep over the bank's key space (so every key is evicted again and again) with re-reads of keys that
+        were evicted a while ago; every operation goes to every cache of the bank"""
+
+        def __init__(self):
+            super().__init__("scanner")
+            self.rng = random.Random(sub_seed(seed, "scanner"))
+            self.pos = 0
+            self.ops = 0
+            self.hits = {c.name: 0 for c in bank}
+
+        def handle_event(self, event):
+            r = self.rng
+            cap = cfg.get("bank_cap", 2)
+            for _ in range(cfg.get("scan_span", 3)):
+                u = r.random()
+                if u < 0.6:
+                    self.pos += 1
+                    k = bkey(self.pos)
+                elif u < 0.85:
+                    # a key that was (re-)inserted a few operations ago: still cached only if the policy protects it
+                    k = bkey(self.pos - r.randrange(cap, cap + 4))
+                else:
+                    k = bkey(self.pos - r.randrange(1, cfg.get("scan_back", 20) + 1))
+                put = r.randrange(100) < cfg.get("scan_put_pct", 0)
+                for c in bank:
+                    if put:
+                        yield from c.put(k, f"s{self.ops}")
+                    else:
+                        before = c.stats.hits
+                        yield from c.get(k)
+                        self.hits[c.name] += c.stats.hits - before
+                self.ops += 1
+            return None
+
+    scanner = Scanner()
     clients = [Client(i) for i in range(cfg["n_clients"])]
     admin = Admin("admin")
     sources = []
+    if bank:
+        sources.append(Source.constant(rate=cfg.get("scan_rate", 20), target=scanner, event_type="Scan",
+                                       name="src-scan", stop_after=stop))
     for i, c in enumerate(cfg["clients"]):
         mk = Source.poisson if c["poisson"] else Source.constant
         sources.append(mk(rate=c["rate"], target=clients[i], event_type="Tick", name=f"src-{i}", stop_after=stop))
     if cfg["eviction"] == "ttl":
         sources.append(Source.constant(rate=cfg["sweep_rate"], target=admin, event_type="sweep", name="src-sweep",
                                        stop_after=end - 0.1))
-    entities = [db, cache, db2, sttl, db3, l1, l2, mtc, *shards, sharded, *replicas, repl, pg, warmer, admin, *clients]
+    entities = [db, cache, db2, sttl, db3, l1, l2, mtc, *shards, sharded, *replicas, repl, pg, warmer, admin, *clients,
+                dbb, *bank, scanner]
     sim = Simulation(end_time=T(end), sources=sources, entities=entities)
     sim.schedule(warmer.start_warming())
     if cfg["inv_all_ms"] is not None:
@@ -469,6 +558,13 @@ def build(cfg, seed):
     for s in shards:
         obs[s.name] = stats_of(s)
         obs[s.name + ".x"] = kv_obs(s)
+    if bank:
+        obs["bank-db"] = stats_of(dbb)
+        obs["scanner"] = lambda: {"ops": scanner.ops, "pos": scanner.pos, "hits": scanner.hits}
+        for c in bank:
+            obs[c.name] = stats_of(c)
+            obs[c.name + ".x"] = (lambda c=c: {"size": c.cache_size, "cached": c.get_cached_keys(),
+                                               "hit_rate": c.hit_rate})
     for s in replicas:
         obs[s.name] = stats_of(s)
         obs[s.name + ".x"] = kv_obs(s)
